@@ -39,7 +39,7 @@ CHECKS = {
             "bounded model checking (Kani->CBMC) of every (de)serialiser on arbitrary values; whole-image round trip bounded to 0/1-element vectors (larger images are outside CBMC's reach here, DESIGN 8.4)"),
     "C11": ("model_checking", "the same multi-block pattern sets are built by the real builder with num_free_blocks in {1,2,3,16} (thorough: {1,2,3,5,16,64}; values are enumerated, not symbolic); every build is validated against the SAME by-definition reference for all (state,label) (T1,T5 quick; T1,T2,T34,T6 thorough), so all builds answer every search identically, stay memory safe and report the same state count",
             "bounded model checking (Kani->CBMC): table validation of each num_free_blocks build against one reference"),
-    "C12": ("model_checking", "for ALL 4-slot tables and all haystacks <= 2 bytes / 2 arbitrary chars: every next() of the three *_from_iter methods returns the slice entry point's match, exactly m.end() bytes have been pulled from a counting source at that moment, exactly len at the final None; the source's size_hint lower bound is an arbitrary valid value; for ALL 2-slot tables an OWNED [u8; 2] haystack passed by value to the three slice entry points (iterator built in a callee and returned) gives the byte-iterator entry point's matches, under Kani's pointer-validity checks (S-own)",
+    "C12": ("model_checking", "for ALL 4-slot tables and all haystacks <= 2 bytes / 2 arbitrary chars: every next() of the three *_from_iter methods returns the slice entry point's match, exactly m.end() bytes have been pulled from a counting source at that moment, exactly len at the final None; the source's size_hint lower bound is an arbitrary valid value; thorough tier: for ALL 2-slot tables an OWNED [u8; 2] haystack passed by value to the three slice entry points (iterator built in a callee and returned) gives the byte-iterator entry point's matches, under Kani's pointer-validity checks (S-own)",
             "bounded model checking (Kani->CBMC) with an instrumented counting source over arbitrary small tables"),
     "C13": ("model_checking", "ranking function per automaton: for ALL real states the fail link leads to a strictly shallower real state (or the dead state in leftmost kinds) and output parent links strictly decrease (T34/T34lm); the transition loops are unrolled to maxdepth+2 with unwinding assertions for ALL (state,label) (T5) => termination; depth +1 per goto and <= -1 per fail step gives the 2n bound (argued, DESIGN section 3); iterator steps terminate for all 4-slot tables",
             "bounded model checking (Kani->CBMC): rank obligations for all states + unwinding assertions as termination certificates"),
